@@ -108,7 +108,10 @@ func (dev *RoachDevice) samplePacket() error {
 	dev.nextS = FrameIndex(header.Nsamp) + FrameIndex(header.Sampnum)
 	dev.nchan = int(header.Nchan)
 	dev.unwrap = make([]*PhaseUnwrapper, dev.nchan)
-	biaslevel := dev.unwrapOpts.calcBiasLevel()
+	// calcBiasLevel is in units where 2^16 is one ϕ0 (the Abaco scale). ROACH data have 2^roachFractionBits
+	// per ϕ0, so rescale: otherwise the bias is 4x too large (1.52 ϕ0), lies more than half a quantum from zero
+	// after reduction, and steps can no longer be brought within half a quantum of it by a single ±ϕ0 correction.
+	biaslevel := dev.unwrapOpts.calcBiasLevel() >> (16 - roachFractionBits)
 	pulseSign := dev.unwrapOpts.PulseSign
 	invertData := false // not implemented for ROACH at this time
 	for i := range dev.unwrap {
